@@ -39,6 +39,10 @@ def gen(tier, seed):
             "bare rate constants get exactly the units of their order in the reaction's units system (%s)" % us, "a: float, b: float, n: int, m: int", timeout=120)
         add("split_%s" % us, "c19-split", "split_ok(a, b, %r)" % us, ["pre: 0 <= a < 1e9 and 0 <= b < 1e9"], "split gives two irreversible reactions with the same constants (%s)" % us, "a: float, b: float")
         add("K_%s" % us, "c19-K", "K_ok(a, b, %r)" % us, ["pre: 1e-6 < a < 1e6 and 0 <= b < 1e6"], "equilibrium constant = kf/kr, None iff kr = 0 (%s)" % us, "a: float, b: float")
+    add("abi_stoichiometry", "c19-abi-stoichiometry", "abi_stoichiometry(q, a, b, c, d, opt)", ["pre: 0 <= q <= 3 and 1 <= a <= 3 and 0 <= b <= 3 and 1 <= c <= 2 and 0 <= d <= 3 and 0 <= opt <= 2"],
+        "the coefficient vectors handed to the native engine (per forward / reverse half: reactant coefficients and net change) are those of the reaction, also when a species stands on both sides of the arrow (catalyst, autocatalysis, partial consumption); coefficients symbolic in small ranges, 4 reaction shapes, 3 engine kinds",
+        "q: int, a: int, b: int, c: int, d: int, opt: int", viol="the stoichiometric vectors handed to the engine are not the reaction's")
+    conds[-1]["enumerate"] = True
     for form in (0, 1):
         add("K_mixed_%d" % form, "c19-K", "K_mixed_ok(a, b, %d)" % form, ["pre: 1e-6 < a < 1e6 and 0 <= b < 1e6"],
             "equilibrium constant when only %s is a per-environment dictionary (kr = 0 gives None)" % ("kr" if form == 0 else "kf"), "a: float, b: float")
@@ -71,4 +75,5 @@ def run(rec):
         rec.encoded(fn)
     text, conds = gen(rec.tier, rec.seed)
     mod = pysym.write_module("hgen_C19", text)
-    pysym.run_conditions(rec, mod, conds, default_timeout=90)
+    pysym.run_auto(rec, mod, [c for c in conds if c.get("enumerate")])
+    pysym.run_conditions(rec, mod, [c for c in conds if not c.get("enumerate")], default_timeout=90)
